@@ -394,14 +394,19 @@ func (m *Model) algorithmUnit(tk *TreeKind, name string) *FuncUnit {
 	if u == nil || u.Body == nil {
 		return u
 	}
+	// the descent: a loop, or a function that calls itself on the child
 	hasLoop := func(x *FuncUnit) bool {
 		found := false
 		ast.Inspect(x.Body, func(n ast.Node) bool {
-			switch n.(type) {
+			switch y := n.(type) {
 			case *ast.FuncLit:
 				return false
 			case *ast.ForStmt:
 				found = true
+			case *ast.CallExpr:
+				if x.Obj != nil && m.staticCallee(y) == x.Obj {
+					found = true
+				}
 			}
 			return true
 		})
